@@ -252,7 +252,24 @@ func (v *fnVC) applyCall(c *ssa.CallCommon, x *ssa.Call, pos token.Pos, cond T) 
 	if con == nil && callee == nil && !c.IsInvoke() {
 		// dynamically called function value (callback, loader, resolver, option): its results are an
 		// uninterpreted function of the function value and the arguments; assumed not to touch modelled state
-		v.notes = append(v.notes, "assume: dynamically called function value "+c.Value.Name()+" does not modify library state (results = dyn(f, args))")
+		// a callee that receives a reference (pointer, slice, map, interface, function) may write through it: the
+		// heap is havoc'd (private cells survive); with scalar and string arguments only, it is assumed not to
+		// touch library state
+		refArg := false
+		for _, a := range c.Args {
+			switch a.Type().Underlying().(type) {
+			case *types.Pointer, *types.Slice, *types.Map, *types.Interface, *types.Signature, *types.Chan:
+				refArg = true
+			}
+		}
+		if refArg {
+			if _, claimed := v.frameAlts("0"); claimed {
+				v.oblige("frame.call", "dynamic call of "+c.Value.Name()+" with reference arguments", "false", pos)
+			}
+			v.havocAll("dynamic call with reference arguments: " + c.Value.Name())
+		} else {
+			v.notes = append(v.notes, "assume: dynamically called function value "+c.Value.Name()+" (scalar/string arguments) does not modify library state (results = dyn(f, args))")
+		}
 		var as []T
 		var sorts []string
 		as = append(as, v.val(c.Value))
